@@ -58,6 +58,8 @@ package proxy
 //@   modifies-all $gTimeoutSet
 //@   ghost-set gTimeoutSet = true
 //@ extern context.WithValue
+//@ extern-iface context.(Context).Value
+//@   ensures[env-value-present] result != nil
 //@ extern net/http/httputil.(*ReverseProxy).ServeHTTP
 //@   modifies-all $gProxied $gProxiedFwd
 //@   ghost-set gProxied = true
@@ -140,10 +142,16 @@ package proxy
 //@   modifies-all $gStatus $gWrote
 //@   ghost-set gStatus = code
 //@   ghost-set gWrote = true
+//@ uninterp firstLabel(s string) string
 //@ extern strings.Split
 //@   ensures[nonempty] sep != "" ==> len(result) >= 1
+//@   ensures[first] sep == "." ==> result[0] == firstLabel(s)
 //@ extern strings.Contains
+// hostOnly(s) is s without its port: the host SplitHostPort returns, or s itself when it has no port.
+//@ uninterp hostOnly(s string) string
 //@ extern net.SplitHostPort
+//@   ensures[host] err == nil ==> host == hostOnly(hostport)
+//@   ensures[no-port] err != nil ==> hostOnly(hostport) == hostport
 //@ extern net.ParseIP
 
 //@ nonnil Server.httpProxy Server.tcpProxy
@@ -154,6 +162,7 @@ package proxy
 //@   requires[request] r != nil && r.Header != nil
 //@   ghost-set gDerived = result
 //@   ensures[header-first] hdrEndpoint[r.Header] != "" ==> result == hdrEndpoint[r.Header]
+//@   ensures[host-label] hdrEndpoint[r.Header] == "" && result != "" ==> result == firstLabel(hostOnly(r.Host))
 //@   ensures[read-only] hdrEndpoint == old(hdrEndpoint) && hdrFwd == old(hdrFwd) && hdrUpgrade == old(hdrUpgrade)
 
 //@ contract (*Server).proxyHTTPRoute
@@ -172,3 +181,12 @@ package proxy
 //@   ensures[checked-is-routed] gSelected ==> gSelEndpoint == ginParam(c, "endpointID")
 //@   ensures[permitted] gSelected && gTokOk ==> permitted(unbox(gTok, "*auth.Token"), gSelEndpoint)
 //@   ensures[401] gTokOk && !permitted(unbox(gTok, "*auth.Token"), ginParam(c, "endpointID")) ==> gWrote && gStatus == 401 && !gSelected
+
+// The transport's dial hook uses the upstream chosen by ServeHTTP: it never
+// selects again (a second selection could forward a forwarded request).
+//@ contract (*HTTPProxy).dialUpstream
+//@   requires[env-ctx] ctx != nil
+//@   serves C06 C05
+//@   requires[env-upstream-in-context] true
+//@   ensures[no-reselect] gSelected == old(gSelected) && gSelAllow == old(gSelAllow) && gSelEndpoint == old(gSelEndpoint)
+//@   ensures[dialed] gDialed
